@@ -614,6 +614,20 @@ def c03_7(I, shape):
     I.check(suite in CipherSuite._filterSuites([suite], sc.cset, version)
             and suite in CipherSuite._filterSuites([suite], sc.sset, version),
             "suite-inside-both-settings")
+    # independent reading of the suite id: its IETF name
+    nm = CipherSuite.ietfNames.get(suite, "")
+    fam = [f for f, pat in (("ecdhe_rsa", "TLS_ECDHE_RSA_"),
+                            ("ecdhe_ecdsa", "TLS_ECDHE_ECDSA_"),
+                            ("dhe_rsa", "TLS_DHE_RSA_"),
+                            ("rsa", "TLS_RSA_WITH_")) if nm.startswith(pat)]
+    cpat = {"aes128gcm": "AES_128_GCM", "aes256gcm": "AES_256_GCM",
+            "chacha20-poly1305": "CHACHA20_POLY1305",
+            "aes128": "AES_128_CBC", "aes256": "AES_256_CBC",
+            "3des": "3DES_EDE_CBC", "rc4": "RC4_128"}[shape["cipher"]]
+    I.check(fam == [shape["kx"]] and cpat in nm,
+            "suite-name-matches-both-policies",
+            detail=lambda: dict(suite=nm, kx=shape["kx"],
+                                cipher=shape["cipher"]))
     alg = "sha384" if suite in CipherSuite.sha384PrfSuites else "sha256"
     ems = _has_ext(ch, ExtensionType.extended_master_secret) and \
         _has_ext(sh, ExtensionType.extended_master_secret)
